@@ -978,11 +978,18 @@ Qed.
 Definition copy_cmask (o : obj) (vm : list bool) (ocm : option (list bool)) : list bool :=
   match ocm with Some c => c | None => cell_mask vm (cells o) end.
 
-Lemma masked_copy_done fl o ovm ocm o' : wf o -> (ovm = None \/ ocm = None) -> (ok o = OPoints -> ocm = None) ->
+(* an explicit cell mask: none on Points, and of the cells' length (numpy accepts a zero-length boolean index on any array) *)
+Definition cmask_ok (o : obj) (ocm : option (list bool)) : Prop :=
+  (ok o = OPoints -> ocm = None) /\ (forall c, ocm = Some c -> length c = length (cells o)).
+
+Lemma cmask_ok_none o : cmask_ok o None.
+Proof. split; [reflexivity|intros c E; discriminate]. Qed.
+
+Lemma masked_copy_done fl o ovm ocm o' : wf o -> (ovm = None \/ ocm = None) -> cmask_ok o ocm ->
   masked_copy fl o ovm ocm = Done o' ->
   selection (mask_or_all ovm (length (verts o))) (copy_cmask o (mask_or_all ovm (length (verts o))) ocm) o o'.
 Proof.
-  intros W Hex Hpt. pose proof W as (Wc & Wk & Wp).
+  intros W Hex [Hpt Hlen]. pose proof W as (Wc & Wk & Wp).
   pose proof (wf_kids_len_v o W) as HLv. pose proof (wf_kids_len_c o W) as HLc.
   unfold masked_copy. destruct (ok o) eqn:Ek.
   - (* Points *)
@@ -1019,7 +1026,7 @@ Proof.
         -- simpl. apply select_length. exact E.
         -- right. simpl. apply select_length. rewrite map_length. apply cell_mask_length.
     + destruct ocm as [c|]; unfold copy_cmask.
-      * destruct (Nat.eqb (length c) (length (cells o))) eqn:E; simpl; [|discriminate]. apply Nat.eqb_eq in E.
+      * pose proof (Hlen c eq_refl) as E. rewrite E, Nat.eqb_refl. simpl.
         destruct (copy_kids fl _ _ None (Some c) (kids o)) as [ks|] eqn:C; [|discriminate].
         intros H; injection H as <-. unfold selection. simpl.
         split; [apply repeat_length|]. split; [exact E|]. split; [apply closed_all_true; exact Wc|].
@@ -1053,7 +1060,7 @@ Proof.
         -- simpl. apply select_length. exact E.
         -- right. simpl. apply select_length. rewrite map_length. apply cell_mask_length.
     + destruct ocm as [c|]; unfold copy_cmask.
-      * destruct (Nat.eqb (length c) (length (cells o))) eqn:E; simpl; [|discriminate]. apply Nat.eqb_eq in E.
+      * pose proof (Hlen c eq_refl) as E. rewrite E, Nat.eqb_refl. simpl.
         destruct (copy_kids fl _ _ None (Some c) (kids o)) as [ks|] eqn:C; [|discriminate].
         intros H; injection H as <-. unfold selection. simpl.
         split; [apply repeat_length|]. split; [exact E|]. split; [apply closed_all_true; exact Wc|].
@@ -1220,7 +1227,7 @@ Definition op_safe (fl : flags) (o : obj) (p : op) : Prop :=
   match p with
   | RemoveVertices ix => valueless_safe fl o /\ (f_guard_cells fl = true \/ ok o = OPoints \/ touches o ix) /\ text_safe_rv o ix
   | RemoveCells ix => (f_skip_valueless fl = true \/ valued ACell (kids o)) /\ text_safe_rc o ix
-  | MaskedCopy vm cm => (vm = None \/ cm = None) /\ (ok o = OPoints -> cm = None)
+  | MaskedCopy vm cm => (vm = None \/ cm = None) /\ cmask_ok o cm
   | SetValues id v => set_fits o id v
   | AddData _ a k v => add_fits o a k v
   | Reopen _ => True
@@ -1331,7 +1338,7 @@ Qed.
 (* for the repaired code only the masked-copy argument discipline remains as a side condition *)
 Definition copy_args_ok (o : obj) (p : op) : Prop :=
   match p with
-  | MaskedCopy vm cm => (vm = None \/ cm = None) /\ (ok o = OPoints -> cm = None)
+  | MaskedCopy vm cm => (vm = None \/ cm = None) /\ cmask_ok o cm
   | SetValues id v => set_fits o id v          (* text arrays are not padded: they must not be shorter than the count *)
   | AddData _ a k v => add_fits o a k v
   | RemoveVertices ix => text_safe_rv o ix     (* a zero-length text array cannot be written *)
@@ -1442,7 +1449,7 @@ Definition no_text_kids (o : obj) : Prop := Forall (fun k => kkind k <> KText) (
    mask (none on Points), and the operation does not add text data *)
 Definition op_plain (o : obj) (p : op) : Prop :=
   match p with
-  | MaskedCopy vm cm => (vm = None \/ cm = None) /\ (ok o = OPoints -> cm = None)
+  | MaskedCopy vm cm => (vm = None \/ cm = None) /\ cmask_ok o cm
   | AddData _ _ k _ => k <> KText
   | _ => True
   end.
